@@ -146,6 +146,25 @@ def handle (m : String) (j : Json) : Except String Json := do
     pure (Json.arr ((dedupe a.toList).map (fun p => Json.arr #[Json.str p.1, Json.str p.2])).toArray)
   | "c14.incnames" =>
     pure (Json.arr ((incNames (← getStr j "s")).map Json.str).toArray)
+  | "c14.resolve" =>
+    -- {"order": [layer tags, farthest first], "binds": {tag: [names]}, "name": n} → tag | null
+    let tagOf : String → Except String Layer := fun t => match t with
+      | "builtins" => pure .builtin | "options" => pure .option | "object_names" => pure .objectName
+      | "row_fields" => pure .rowField | "plugins" => pure .plugin | "variables" => pure .variable
+      | "funcs" => pure .func | x => throw s!"bad layer {x}"
+    let tagJ : Layer → String := fun L => match L with
+      | .builtin => "builtins" | .option => "options" | .objectName => "object_names"
+      | .rowField => "row_fields" | .plugin => "plugins" | .variable => "variables" | .func => "funcs"
+    let order ← (← getArr j "order").mapM (fun x => do tagOf (← x.getStr?))
+    let bj ← j.getObjVal? "binds"
+    let name ← getStr j "name"
+    let binds : Layer → List String := fun L =>
+      match bj.getObjVal? (tagJ L) with
+      | .ok (Json.arr a) => a.toList.filterMap (fun x => match x with | Json.str s => some s | _ => none)
+      | _ => []
+    pure (match resolveIn order.toList binds name with
+      | some L => Json.str (tagJ L)
+      | none => Json.null)
   | "c14.merge" =>
     let tu ← parseTest (← getStr j "tu")
     let td ← parseTest (← getStr j "td")
